@@ -62,7 +62,8 @@ class Peer:
         method = method if isinstance(method, bytes) else method.encode()
         u = urlsplit(url)
         path = u.path.encode()
-        params_b = {k.encode("latin-1"): v.encode("latin-1") for k, v in (params or {}).items()}
+        # httpx percent-encodes str parameters as UTF-8: these are the bytes on the wire
+        params_b = {k.encode("utf-8"): v.encode("utf-8") for k, v in (params or {}).items()}
         headers_b = {(k if isinstance(k, bytes) else k.encode()): (v if isinstance(v, bytes) else v.encode()) for k, v in (headers or {}).items()}
         body = content or b""
         raw = serialize_request(method, path, params_b, headers_b, body)
